@@ -664,14 +664,40 @@ pub fn run_paths<C: KeyColl>(tr: &mut Trace, paths: &[(usize, Vec<KOp>)], keys: 
     }
 }
 
+/// (see ord.rs) red-rooted start states are used only with an implementation that itself leaves a root
+/// red: the original does when a two-entry tree loses its root to expiry
+fn leaves_roots_red<C: KeyColl>() -> bool {
+    if !C::HAS_SNAP {
+        return false;
+    }
+    let r = observe(0, || {
+        let mut c = C::make(0);
+        c.insert(inst::probe(1, 1), 1, 0);
+        c.insert(inst::probe(2, 9), 2, 0);
+        c.get_value(5, inst::probe(2, inst::NOEXP));
+        c.snap_json()
+    });
+    match r.out {
+        Outcome::Ok(j) => parse_snap(&j).map_or(false, |s| root_is_red(&s)),
+        _ => false,
+    }
+}
+fn root_is_red(s: &Snap) -> bool {
+    s.root >= 0 && (s.root as usize) < s.nd.len() && s.nd[s.root as usize][3] == 1
+}
+
 /// One step of every kind from every start state TLC printed for IndKey.tla: every red-black tree up
 /// to a size x every pattern of expirations 1 / 2, the clock at 0.  The real tree is put into the
 /// state through the load hook; the alphabet ranges over both times.
 pub fn run_ind<C: KeyColl>(tr: &mut Trace, states: &[Snap], with_export: bool) {
+    let red_roots = leaves_roots_red::<C>();
     let mut s: KeySession<C> = KeySession::new(tr, 1, 0, 1);
     for snap in states {
         if s.tr.full() {
             break;
+        }
+        if root_is_red(snap) && !red_roots {
+            continue;
         }
         if !s.load_snap(snap, 0, 0) {
             continue;
@@ -687,10 +713,14 @@ pub fn run_ind<C: KeyColl>(tr: &mut Trace, states: &[Snap], with_export: bool) {
 /// query form for every probe and every insertion into every gap is made with its j-th callback
 /// panicking, j = 1, 2, .. until the call completes; after each the stored keys are looked up.
 pub fn run_ind_faults<C: KeyColl>(tr: &mut Trace, states: &[Snap]) {
+    let red_roots = leaves_roots_red::<C>();
     let mut s: KeySession<C> = KeySession::new(tr, 1, 0, 1);
     for snap in states {
         if s.tr.full() {
             break;
+        }
+        if root_is_red(snap) && !red_roots {
+            continue;
         }
         if !s.load_snap(snap, 0, 0) {
             continue;
